@@ -325,6 +325,17 @@ def contain(p, cpol, spol, case, nt, labels, resumed=False):
     if s.defined_in(ver) is False:
         return bad("suite-undefined-in-version", "%s in %r" % (s.name, ver),
                    nt=nt, labels=labels)
+    # PSK key-exchange mode (TLS 1.3): the one in use must be on both lists
+    if case.get("flavour") == "psk" and ver == (3, 4) and \
+            p.c.session.serverCertChain is None and not resumed:
+        mode = "psk_dhe_ke" if p.c.ecdhCurve is not None else "psk_ke"
+        labels.append("psk-mode=" + mode)
+        k = case["psk"]
+        for who, lst in (("client", k.get("c_modes")),
+                         ("server", k.get("s_modes"))):
+            if lst is not None and mode not in lst:
+                return bad("psk-mode-outside-policy:%s:%s" % (who, mode),
+                           "%s allows %r" % (who, lst), nt=nt, labels=labels)
     # group
     grp = p.c.ecdhCurve
     if grp is not None:
@@ -503,6 +514,17 @@ def explicit(tier, seed):
                         case = base(v, cred)
                         case[who][dim] = [x]
                         yield case
+    # external PSK: every pair of key-exchange-mode lists
+    modes = [["psk_dhe_ke"], ["psk_ke"], ["psk_ke", "psk_dhe_ke"],
+             ["psk_dhe_ke", "psk_ke"]]
+    for cm in modes:
+        for sm in modes:
+            for h in ("sha256", "sha384"):
+                case = base(((3, 4), (3, 4)), "rsa")
+                case["flavour"] = "psk"
+                case["psk"] = {"hash": h, "c_hash": h, "same_secret": True,
+                               "same_id": True, "c_modes": cm, "s_modes": sm}
+                yield case
     # resumption under a narrowed policy, every narrowing x mechanism
     for v in vers:
         for how in NARROW:
